@@ -29,7 +29,8 @@ type Violation struct {
 	Kind     string          `json:"kind"`          // which replayer understands Case
 	Sig      string          `json:"sig,omitempty"` // root-cause signature used for known findings
 	Msg      string          `json:"msg"`
-	Size     int             `json:"size"` // smaller is better when several shards fail
+	Size     int             `json:"size"`             // smaller is better when several shards fail
+	Engine   string          `json:"engine,omitempty"` // engine whose TestReplay understands Case (set by the driver)
 	Case     json.RawMessage `json:"case"`
 }
 
@@ -353,7 +354,9 @@ type ShardSpec struct {
 	Lo    uint64 `json:"lo,omitempty"`
 	Hi    uint64 `json:"hi,omitempty"`
 	Race  bool   `json:"race,omitempty"` // run with the -race build of the engine
-	Fuzz  bool   `json:"fuzz,omitempty"` // a native `go test -fuzz` campaign (driver runs `go test`)
+	// Engine is filled in by the driver: the engine package this shard belongs to.
+	Engine string `json:"engine,omitempty"`
+	Fuzz   bool   `json:"fuzz,omitempty"` // a native `go test -fuzz` campaign (driver runs `go test`)
 }
 
 // Plan is what an engine answers when asked how to check a property in a tier.
